@@ -98,6 +98,9 @@ def corpus():
         "T|new 4;property 1 2 1 1",
         "T|new 8", "T|new 9", "T|new -1",
         # F75 / F76 / F77 / F78 as correspondence cases (exception class instead of a crash)
+        "#GC ctrait-default saveall", "#GC itrait-handler-closure saveall",
+        "U|n n s c9|1 2 3 4|s", "U|s c9|1 2|v", "#V Tuple(Any,Any,Float) | t_conv3 | set",
+        "#V Either(Str,Tuple(Any,Float)) | t_conv2 | set",
         "#V Either(Range,Float) | f5.5 | set", "#V Either(Range,Str) | f5.5 | set",
         "#V Either(Range,Float) | f5.5 | validate", "R|vn|set x 10 2 dflt=9 notify=0:RuntimeError",
         "T|new 3;delegate 4;dprobe", "T|new 3;delegate 100;dprobe",
@@ -128,6 +131,11 @@ def generate(rng, tier):
     for c in C14.gen_T(rng, True, probes=True):
         yield c
     for c in L.gen_v(True):
+        yield c
+    for sc in SUB.GC_SCENARIOS:
+        yield "#GC %s saveall" % sc
+        yield "#GC %s plain" % sc
+    for c in L.gen_u(rng, {"quick": 300, "thorough": 6000}.get(tier, 2000)):
         yield c
     for _ in range(nT):
         yield C14.random_T(rng)
@@ -175,7 +183,39 @@ def run_prog(case):
     return out, hits, ["PROG:" + prog["family"]] + (["PROG:crash"] if out == "crash" else [])
 
 
+def judge_gc(spec, ans, asan):
+    hits = []
+    sc = spec["scenario"]
+    if ans.get("gc_violation"):
+        hits.append({"signature": "gc:dying-object-visible:" + sc,
+                     "what": "a gc.collect() run by a finalizer while the object of scenario %s was being "
+                             "deallocated was handed %s with reference count 0 (the collector clears and frees it "
+                             "a second time)" % (sc, ans["gc_violation"])})
+        return "gc-violation", hits
+    if "crash" in ans:
+        hits.append({"signature": "crash:gc-during-dealloc:" + sc,
+                     "what": "gc.collect() from a finalizer during deallocation (%s, %s)%s: %s" % (
+                         sc, spec.get("mode"), " (ASan+UBSan build)" if asan else "", SUB.crash_summary(ans)),
+                     "stderr_tail": ans.get("stderr", "")[-1500:]})
+        return "crash", hits
+    if ans.get("error"):
+        return "harness-exception " + ans["error"], hits
+    if ans.get("finalizer_runs") != 1:
+        return "harness-exception finalizer ran %s times" % ans.get("finalizer_runs"), hits
+    return "ok", hits
+
+
+def run_gc(case):
+    _, sc, mode = case.split()
+    spec = {"scenario": sc, "mode": mode}
+    ans = _server(False).request({"k": "GC", "spec": spec})
+    out, hits = judge_gc(spec, ans, False)
+    return out, hits, ["GC:" + mode]
+
+
 def run_impl(case):
+    if case.startswith("#GC "):
+        return run_gc(case)
     if case.startswith("R|"):
         return L.run_r(case)
     if case.startswith("T|"):
@@ -184,6 +224,8 @@ def run_impl(case):
         return run_prog(case)
     if case.startswith("#V "):
         return L.run_v(case)
+    if case.startswith("U|"):
+        return L.run_u(case)
     raise ValueError(case)
 
 
@@ -254,6 +296,7 @@ def extra_checks(ctx):
     for v in range(-1, 13):
         progs.append({"family": "raw-ctrait", "traits": {"i": "int"}, "steps": [
             ["new", "o"], ["raw_ctrait", 0, "default", v, "all"], ["gc"]]})
+    gc_specs = [{"scenario": sc, "mode": "plain"} for sc in SUB.GC_SCENARIOS]
     nthreads = 12
     hits = []
     lock = threading.Lock()
@@ -262,6 +305,16 @@ def extra_checks(ctx):
     def work(chunk):
         srv = SUB.Server(sc, sanitize=True, timeout=180)
         try:
+            for spec in (gc_specs if chunk is progs_first else []):
+                ans = srv.request({"k": "GC", "spec": spec})
+                out, hs = judge_gc(spec, ans, True)
+                with lock:
+                    stats["gc"] = stats.get("gc", 0) + 1
+                    for h in hs:
+                        h["case"] = "#GC %s plain" % spec["scenario"]
+                        h["impl"] = out
+                        h["no_shrink"] = True
+                        hits.append(h)
             for prog in chunk:
                 ans = srv.request({"k": "PROG", "prog": prog})
                 out, hs = judge_program(prog, ans, True)
@@ -278,13 +331,15 @@ def extra_checks(ctx):
                         hits.append(h)
         finally:
             srv.close()
-    ths = [threading.Thread(target=work, args=(progs[i::nthreads],)) for i in range(nthreads)]
+    chunks = [progs[i::nthreads] for i in range(nthreads)]
+    progs_first = chunks[0]
+    ths = [threading.Thread(target=work, args=(ch,)) for ch in chunks]
     for t in ths:
         t.start()
     for t in ths:
         t.join()
-    _EXTRA.update({"sanitizer_tier": "ASan+UBSan build (clang-14), %d programs, %d ended in a crash/report" % (
-        stats["run"], stats["crashes"])})
+    _EXTRA.update({"sanitizer_tier": "ASan+UBSan build (clang-14, PYTHONMALLOC=malloc), %d programs, %d ended in a crash/report; %d "
+                                     "gc-during-dealloc scenarios" % (stats["run"], stats["crashes"], stats.get("gc", 0))})
     return hits
 
 
